@@ -75,3 +75,51 @@ package openapi3
 //@   ensures [children] result == nil ==> (old(parameter.Content) != nil ==> contentOK(old(parameter.Content))) && (old(parameter.Schema) != nil ==> schemaRefOK(old(parameter.Schema))) && extensionsOK(old(parameter.Extensions))
 //@   option safety-tags C20
 //@   tag C04
+
+// ---- paths: no two path templates that differ only in variable names (OAS 3.0.3 "Paths Object":
+// "Templated paths with the same hierarchy but different templated names MUST NOT exist")
+// normOf(p) is the template with its variable names erased (the result of normalizeTemplatedPath).
+//@ spec normOf(path string) string
+//@ func normalizeTemplatedPath
+//@   modifies nothing
+//@   defines result.0 == normOf(path)
+//@ spec pathKeys(p *Paths) map[string]*PathItem := p.m
+
+// helpers without a contract of their own are scanned for these frame facts
+//@ default-frame @C04 preserves []string, Paths.m
+
+//@ func (*Paths).Len
+//@   modifies nothing
+//@   option safety-tags C20
+//@   tag C04
+//@ func (*Paths).Value
+//@   modifies nothing
+//@   option safety-tags C20
+//@   tag C04
+//@ func (*Paths).Set
+//@   requires paths != nil
+//@   modifies paths.m, map[string]*PathItem
+//@   option safety-tags C20
+//@   tag C04
+//@ func (*PathItem).Validate
+//@   modifies *
+//@   preserves @C04 []string, Paths.m
+
+//@ func (*Paths).Map
+//@   requires paths != nil
+//@   modifies nothing
+//@   loop 0 invariant fresh(m) && m != nil && (forall k string :: seen(k) <==> has(m, k))
+//@   ensures fresh(result) && (forall k string :: has(result, k) <==> has(paths.m, k))
+//@   option safety-tags C20
+//@   tag C04
+
+//@ func (*Paths).Validate
+//@   requires paths != nil
+//@   modifies *
+//@   loop 0 invariant seenset() == keys(keys) && fresh(keys)
+//@   loop 1 invariant forall k string :: has(old(paths.m), k) ==> keys(keys)[k]
+//@   loop 1 invariant forall k string :: keysPrefix(keys, #i)[k] ==> (has(normalizedPaths, normOf(k)) && normalizedPaths[normOf(k)] == k)
+//@   loop 1 invariant forall n string :: has(normalizedPaths, n) ==> (keysPrefix(keys, #i)[normalizedPaths[n]] && normOf(normalizedPaths[n]) == n)
+//@   ensures [no-conflicting-templates] result == nil ==> (forall p string, q string :: has(old(paths.m), p) && has(old(paths.m), q) && p != q ==> normOf(p) != normOf(q))
+//@   option safety-tags C20
+//@   tag C04-attempted
